@@ -1,6 +1,6 @@
 (* Model/Encoding.v -- how a template's text is decoded and its output encoded:
    Lexer.decode_raw_stream (mako/lexer.py:185-227) with the magic coding comment
-   regex  #.*coding[:=]\s*([-\w.]+).*\r?\n  matched at offset 0, and the choice of output buffer in
+   regex  #.*coding[:=][ \t]*([-\w.]+).*\r?\n  matched at offset 0, and the choice of output buffer in
    runtime._render / util.FastEncodingBuffer.  The codecs are oracles passed as functions.
    Definitions only. *)
 From MakoV Require Import Lib.Str Gen.Unicode.
@@ -8,6 +8,7 @@ Open Scope N_scope.
 
 Definition cHASHe : N := 35.  Definition cCOLONe : N := 58.  Definition cEQe : N := 61.
 Definition is_namechar_e (c : N) : bool := is_word c || (c =? 45) || (c =? 46).
+Definition is_blank_e (c : N) : bool := (c =? 32) || (c =? 9).      (* a blank or a tab: the declaration stays on its line (fix 099dbc7) *)
 
 Fixpoint span_e (p : N -> bool) (s : str) : str * str :=
   match s with
@@ -15,14 +16,14 @@ Fixpoint span_e (p : N -> bool) (s : str) : str * str :=
   | [] => ([], [])
   end.
 
-(* the rest of the pattern at one start position:  coding[:=]\s*([-\w.]+).*\r?\n  ; the name and what
+(* the rest of the pattern at one start position:  coding[:=][ \t]*([-\w.]+).*\r?\n  ; the name and what
    follows the match.  The runs are greedy; backtracking cannot change the group because the
    classes of adjacent runs are disjoint and a shorter name is followed by the same line end. *)
 Definition try_at (s : str) : option (str * str) :=
   match strip_prefix (s2l "coding") s with
   | Some (e :: r1) =>
       if (e =? cCOLONe) || (e =? cEQe) then
-        let (_, r2) := span_e is_space r1 in
+        let (_, r2) := span_e is_blank_e r1 in
         let (name, r3) := span_e is_namechar_e r2 in
         match name with
         | [] => None
